@@ -819,7 +819,9 @@ Section Engine.
   Definition while_loop (w : wcfg) (sp : step) (s : st) : R :=
     let s0 := set_ctx s (sset "whileCounter" (VInt 0) (ctx s)) in
     match w_stop w, w_max w with
-    | None, None => (OUnsup, s0)
+    | None, None =>
+        raise_new "pypyr.errors.PipelineDefinitionError"
+                  "the while decorator must have either max or stop, or both. But not neither." s0
     | _, _ =>
     lift (as_bool s0 (w_eom w)) s0 (fun eom =>
     lift (as_float s0 (w_sleep w)) s0 (fun sleep =>
@@ -848,7 +850,8 @@ Section Engine.
                 end
               else raise_new "pypyr.errors.LoopMaxExhaustedError"
                              ("while loop reached " ++ str_of_Z m ++ ".") s1
-          | None => (OUnsup, s1)
+          | None =>      (* never reached: an unbounded poll does not end false *)
+              raise_new "pypyr.errors.LoopMaxExhaustedError" "while loop reached None." s1
           end
         else (OOk, s1)
     end)))
